@@ -193,6 +193,7 @@ def _serve(conn, config) -> None:
     global CONFIG
     CONFIG = config
     sys.setrecursionlimit(4000)
+    budget.die_with_parent()
     budget.setup()
     while True:
         try:
